@@ -313,4 +313,71 @@ theorem headD_map_ofNat (raws : List (Option Nat)) :
     (raws.map (Option.map Int.ofNat)).headD none = (raws.headD none).map Int.ofNat := by
   cases raws <;> rfl
 
+/-! ### the consuming reader in closed form (for the spec-reader equivalence) -/
+
+theorem readUInt_eq (n : Nat) (bs : Bits) :
+    readUInt n bs = if n = 0 then .error .other else if bs.length < n then .error .bitRead
+      else .ok (ofBits (bs.take n), bs.drop n) := by
+  by_cases h0 : n = 0
+  · simp [readUInt, h0]
+  · by_cases hl : bs.length < n <;> simp [readUInt, readBits, h0, hl]
+
+theorem readDiff_eq (d : Nat) (bs : Bits) (hd : 0 < d) (h64 : d ≤ 64) :
+    readDiff d bs = if bs.length < d then .error .bitRead
+      else .ok ((if (bs.take d).all id then none else some (ofBits (bs.take d))), bs.drop d) := by
+  have h0 : d ≠ 0 := by omega
+  have h64' : ¬ (64 < d) := by omega
+  by_cases hl : bs.length < d
+  · simp [readDiff, readUIntOrNone, readUInt_eq, h0, hl]
+  · have hlen : (bs.take d).length = d := by rw [List.length_take]; omega
+    have hmax := ofBits_eq_max_iff (bs.take d)
+    rw [hlen] at hmax
+    simp only [readDiff, readUIntOrNone, readUInt_eq, h0, hl, h64', if_false]
+    by_cases hall : (bs.take d).all id = true
+    · have hv := hmax.mpr hall
+      by_cases h1 : d = 1
+      · subst h1; simp [hall, hv]
+      · have : 1 < d := by omega
+        simp [hall, hv, this]
+    · have hv : ¬ (ofBits (bs.take d) = 2 ^ d - 1) := fun h => hall (hmax.mp h)
+      have hne : ¬ (some (ofBits (bs.take d)) = some 1 ∧ d = 1) := by
+        rintro ⟨a, b⟩; subst b; simp at a; exact hv (by simpa using a)
+      simp only [hv, and_false, if_false, hne, hall]
+      simp
+
+/-- value of the `i`-th of a run of `d`-bit increments on top of `m` -/
+def incrVal (d m : Nat) (bs : Bits) (i : Nat) : Option Nat :=
+  if ((bs.drop (i * d)).take d).all id then none else some (m + ofBits ((bs.drop (i * d)).take d))
+
+theorem readDiffs_eq (d m n : Nat) (bs : Bits) (hd : 0 < d) (h64 : d ≤ 64) :
+    readDiffs d m n bs = if bs.length < n * d then .error .bitRead
+      else .ok ((List.range n).map (incrVal d m bs), bs.drop (n * d)) := by
+  induction n generalizing bs with
+  | zero => simp [readDiffs]
+  | succ n ih =>
+    have hmul : (n + 1) * d = d + n * d := by rw [Nat.succ_mul]; omega
+    simp only [readDiffs, readDiff_eq d bs hd h64]
+    by_cases hl : bs.length < d
+    · have : bs.length < (n + 1) * d := by omega
+      simp [hl, this]
+    · simp only [hl, if_false, ih (bs.drop d), List.length_drop]
+      by_cases hl2 : bs.length - d < n * d
+      · have : bs.length < (n + 1) * d := by omega
+        simp [hl2, this]
+      · have hnl : ¬ (bs.length < d + n * d) := by omega
+        have h0 : incrVal d m bs 0 =
+            (if (bs.take d).all id then none else some (m + ofBits (bs.take d))) := by
+          simp [incrVal]
+        have hs : ∀ i, incrVal d m bs (i + 1) = incrVal d m (bs.drop d) i := by
+          intro i
+          have : (i + 1) * d = d + i * d := by rw [Nat.succ_mul]; omega
+          simp only [incrVal, List.drop_drop, this]
+        simp only [hl2, if_false, List.range_succ_eq_map, List.map_cons, List.map_map,
+          List.drop_drop, hmul, hnl, h0]
+        have hm : List.map (incrVal d m bs ∘ Nat.succ) (List.range n) =
+            List.map (incrVal d m (bs.drop d)) (List.range n) :=
+          List.map_congr_left (fun i _ => hs i)
+        rw [hm]
+        cases hall : (bs.take d).all id <;> simp
+
 end Bufr
